@@ -353,16 +353,17 @@ def regStep (np : Percentile) (h : Heap) (d : Nat) (f : FName) (vals : List PyLi
 
 theorem applyReg_regStep {np : Percentile} {h : Heap} {d : Nat} {c : Call} {res : Heap × Nat}
     (ha : applyReg np h d c = .ok res) :
-    ∃ f vals, FName.ofString c.name = some f ∧ regStep np h d f vals c.record = .ok res := by
+    ∃ f vals e, FName.ofString c.name = some f ∧ filterTable.find? (fun e => e.1 == c.name) = some e ∧
+      bindParams e.2.2 c.args c.kwargs = .ok vals ∧ regStep np h d f vals c.record = .ok res := by
   unfold applyReg at ha
   split at ha
-  · next kind params f _ hf =>
+  · next n kind params f he hf =>
     split at ha
     · cases ha
     · split at ha
       · cases ha
-      · next vals _ =>
-        refine ⟨f, vals, hf, ?_⟩
+      · next vals hb =>
+        refine ⟨f, vals, (n, kind, params), hf, he, hb, ?_⟩
         unfold regStep
         split at ha
         · cases ha
@@ -440,7 +441,7 @@ theorem customFilter_spec {h : Heap} {d : Nat} {fname : String} {p : Maze → Bo
     {h' : Heap} {d' : Nat} (hs : customFilter h d fname p kw = .ok (h', d')) :
     ∃ ds c ms keep, h.view d = some (ds, c, ms) ∧ allArgs c.applied = true ∧ d' = h.dsets.length ∧
       keep.Sublist ds.mazes ∧ getAll h.mazes keep = some (ms.filter p) ∧
-      h' = { cfgs := h.cfgs ++ [{ c with applied := c.applied ++ [{ name := "__custom__:" ++ fname, args := none, kwargs := kw }],
+      h' = { cfgs := h.cfgs ++ [{ c with applied := c.applied ++ [{ name := "__custom__:" ++ fname, args := some [], kwargs := kw }],
                                          nMazes := keep.length }],
              mazes := h.mazes,
              dsets := h.dsets ++ [{ cfg := h.cfgs.length, mazes := keep, gmc := none }] } := by
@@ -558,9 +559,12 @@ theorem collectMethod_cfgOf {h : Heap} {d : Nat} {cl ip af : Bool} {h1 : Heap} {
   · next ds c vals hv =>
     obtain ⟨hcf, hds, hcc, _⟩ := view_cfgOf hv
     split at hm
-    · simp only [Except.ok.injEq, Prod.mk.injEq] at hm
-      obtain ⟨rfl, rfl⟩ := hm
-      exact ⟨c, hcf, hcf⟩
+    · split at hm
+      · simp only [Except.ok.injEq, Prod.mk.injEq] at hm
+        obtain ⟨rfl, rfl⟩ := hm
+        exact ⟨c, hcf, hcf⟩
+      · obtain ⟨_, rfl, rfl⟩ := copyNew_ok hm
+        exact ⟨c, hcf, by simp [cfgOf]⟩
     · split at hm
       · cases hm
       · split at hm
@@ -616,7 +620,7 @@ theorem step_provenance {np : Percentile} {h : Heap} {d : Nat} {op : Op} {h' : H
       c'.applied = c.applied ++ [op.record] ∧ c'.base = c.base ∧ c'.nMazes = ds'.mazes.length := by
   cases op with
   | reg call =>
-    obtain ⟨f, vals, _, hr⟩ := applyReg_regStep hs
+    obtain ⟨f, vals, _, _, _, _, hr⟩ := applyReg_regStep hs
     unfold regStep at hr
     split at hr
     · cases hr
@@ -633,7 +637,7 @@ theorem step_provenance {np : Percentile} {h : Heap} {d : Nat} {op : Op} {h' : H
       simp only [cfgOf, e1, hds, e3, List.getElem?_set_self (idx_lt_of_getElem? hcc)]
   | custom fname p kw =>
     obtain ⟨ds, c, ms, keep, hv, _, rfl, _, _, rfl⟩ := customFilter_spec hs
-    exact ⟨c, { c with applied := c.applied ++ [{ name := "__custom__:" ++ fname, args := none, kwargs := kw }], nMazes := keep.length },
+    exact ⟨c, { c with applied := c.applied ++ [{ name := "__custom__:" ++ fname, args := some [], kwargs := kw }], nMazes := keep.length },
       { cfg := h.cfgs.length, mazes := keep, gmc := none }, (view_cfgOf hv).1, by simp [cfgOf], by simp, rfl, rfl, rfl⟩
 
 /-! ## the config-driven entry point -/
